@@ -113,6 +113,39 @@ def query_family(n):
     return fam
 
 
+SUB_OF = {"r": ["r", "or"], "m": ["r", "m", "or", "om"], "or": ["r", "or"], "om": ["r", "m", "or", "om"]}
+
+
+def entries_family(n):
+    """(declared entry views E, sub-views S of E, filter over the components of E)."""
+    rng = _Rng(0xE17 + n)
+    focus = list(range(n)) if n <= 6 else [0, 1, 3, 6, 7, 8, 9, 10, 12, 14, 15]
+    fam = []
+    count = 24 if n <= 6 else 10
+    while len(fam) < count:
+        ne = rng.choice([1, 2, 2, 3, 3, 4])
+        pool = focus[:]
+        E = []
+        for _ in range(min(ne, len(pool))):
+            c = pool.pop(rng.below(len(pool)))
+            E.append((rng.choice(["r", "m", "or", "om", "om"]), c))
+        if rng.below(4) == 0:
+            E.insert(rng.below(len(E) + 1), ("id", -1))
+        comps = [c for k, c in E if k != "id"]
+        S = []
+        for k, c in E:
+            if rng.below(3) == 0:
+                continue
+            S.append(("id", -1) if k == "id" else (rng.choice(SUB_OF[k]), c))
+        if rng.below(2) == 0:
+            S.reverse()
+        F = _gen_filter(rng, comps) if comps else ("n",)
+        if F[0] == "v" or any(x[0] == "v" for x in F[1:] if isinstance(x, tuple)):
+            F = ("n",)
+        fam.append((E, S, F))
+    return fam
+
+
 def filter_text(f):
     """serialisation read by the model driver"""
     if f[0] == "n":
@@ -178,7 +211,9 @@ def emit_queries(w, n):
     w("}")
     w("")
     w("/// Query k of the family: every result row in iteration order, and a flag if size_hint ever failed to bracket what was left.")
-    w("pub fn run_query(w: &mut W, k: usize) -> (Vec<String>, Option<String>) {")
+    w("/// mode 0: next() until None, size_hint recorded before every call; mode 1: for_each on a fresh iterator (fold);")
+    w("/// mode 2: one next(), then for_each on the rest; mode 3: two next(), then the rest through by_ref().fold.")
+    w("pub fn run_query(w: &mut W, k: usize, mode: usize) -> (Vec<String>, Option<String>) {")
     w("    let mut rows = Vec::new();")
     w("    let mut hints = Vec::new();")
     w("    match k {")
@@ -187,14 +222,25 @@ def emit_queries(w, n):
         pat = "result!(%s)" % ", ".join(names) if vs else "_"
         items = ", ".join(_fmt_item(nm, k) for nm, (k, c) in zip(names, vs))
         w("        %d => {" % qi)
+        push = "rows.push(vec![%s].join(\",\"))" % items if vs else "rows.push(String::new())"
         w("            let mut it = w.query(Query::<%s, %s>::new()).iter;" % (_views_ty(vs), _filter_ty(f)))
-        w("            loop {")
-        w("                hints.push(it.size_hint());")
-        w("                match it.next() {")
-        w("                    Some(%s) => rows.push(vec![%s].join(\",\"))," % (pat, items) if vs else
-          "                    Some(_) => rows.push(String::new()),")
-        w("                    None => break,")
+        w("            if mode == 0 {")
+        w("                loop {")
+        w("                    hints.push(it.size_hint());")
+        w("                    match it.next() {")
+        w("                        Some(%s) => %s," % (pat, push))
+        w("                        None => break,")
+        w("                    }")
         w("                }")
+        w("            } else {")
+        w("                for _ in 0..(mode - 1) {")
+        w("                    if let Some(%s) = it.next() { %s; }" % (pat, push))
+        w("                }")
+        w("                let rest = it.size_hint();")
+        w("                let before = rows.len();")
+        w("                if mode == 3 { it.by_ref().fold((), |(), %s| { %s; }); } else { it.for_each(|%s| { %s; }); }" % (pat, push, pat, push))
+        w("                let got = rows.len() - before;")
+        w("                if rest.0 > got || rest.1.map_or(false, |h| h < got) { hints.clear(); return (rows, Some(format!(\"size_hint({},{:?})-but-fold-yielded-{}\", rest.0, rest.1, got))); }")
         w("            }")
         w("        }")
     w("        _ => panic!(\"query {} is not in the family\", k),")
@@ -215,6 +261,81 @@ def emit_queries(w, n):
         w("        %d => e.query(Query::<%s, %s>::new()).map(|%s| %s)," % (qi, _views_ty(vs), _filter_ty(f), pat, body))
     w("        _ => panic!(\"query {} is not in the family\", k),")
     w("    })")
+    w("}")
+    w("")
+    # ---- parallel counterparts (C09)
+    ZST = (1, 9)
+    w("/// Query k through par_query: rows as collected from the parallel iterator, and a flag if two items of the")
+    w("/// iteration gave mutable access to the same address (zero-sized components excluded).")
+    w("pub fn run_par_query(w: &mut W, k: usize) -> (Vec<String>, Option<String>) {")
+    w("    use rayon::iter::ParallelIterator;")
+    w("    let items: Vec<(String, Vec<usize>)> = match k {")
+    for qi, (vs, f) in enumerate(fam):
+        names = ["x%d" % i for i in range(len(vs))]
+        pat = "result!(%s)" % ", ".join(names) if vs else "_"
+        items = ", ".join(_fmt_item(nm, k) for nm, (k, c) in zip(names, vs))
+        row = "vec![%s].join(\",\")" % items if vs else "String::new()"
+        addrs = []
+        for nm, (k, c) in zip(names, vs):
+            if c in ZST:
+                continue
+            if k == "m":
+                addrs.append("a.push(&*%s as *const _ as usize);" % nm)
+            elif k == "om":
+                addrs.append("if let Some(y) = &%s { a.push(&**y as *const _ as usize); }" % nm)
+        w("        %d => w.par_query(Query::<%s, %s>::new()).iter.map(|%s| { let mut a: Vec<usize> = Vec::new(); %s (%s, a) }).collect(),"
+          % (qi, _views_ty(vs), _filter_ty(f), pat, " ".join(addrs), row))
+    w("        _ => panic!(\"query {} is not in the family\", k),")
+    w("    };")
+    w("    let mut all: Vec<usize> = items.iter().flat_map(|x| x.1.iter().copied()).collect();")
+    w("    let n = all.len();")
+    w("    all.sort();")
+    w("    all.dedup();")
+    w("    let flag = if all.len() != n { Some(format!(\"alias:{}-mutable-items-{}-distinct-addresses\", n, all.len())) } else { None };")
+    w("    (items.into_iter().map(|x| x.0).collect(), flag)")
+    w("}")
+    w("")
+    w("/// The mutable query of run_query_write through par_query(..).iter.for_each.")
+    w("pub fn run_par_query_write(w: &mut W, k: usize, delta: u64) -> usize {")
+    w("    use rayon::iter::ParallelIterator;")
+    w("    let n = std::sync::atomic::AtomicUsize::new(0);")
+    w("    match k {")
+    for qi, (vs, f) in enumerate(fam):
+        names = ["x%d" % i for i in range(len(vs))]
+        pat = "result!(%s)" % ", ".join(names) if vs else "_"
+        stm = []
+        for nm, (k, c) in zip(names, vs):
+            if k == "m":
+                stm.append("{ let t = %s.tok(); *%s = C%d::new(t.wrapping_add(delta)); n.fetch_add(1, std::sync::atomic::Ordering::Relaxed); }" % (nm, nm, c))
+            elif k == "om":
+                stm.append("if let Some(y) = %s { let t = y.tok(); *y = C%d::new(t.wrapping_add(delta)); n.fetch_add(1, std::sync::atomic::Ordering::Relaxed); }" % (nm, c))
+        if not stm:
+            w("        %d => {}" % qi)
+            continue
+        w("        %d => { w.par_query(Query::<%s, %s>::new()).iter.for_each(|%s| { %s }); }"
+          % (qi, _views_ty(vs), _filter_ty(f), pat, " ".join(stm)))
+    w("        _ => panic!(\"query {} is not in the family\", k),")
+    w("    }")
+    w("    n.into_inner()")
+    w("}")
+    w("")
+    efam = entries_family(n)
+    w("pub const NE: usize = %d;" % len(efam))
+    w("/// Query-time Entries: a query declaring entry views E, then entries.entry(id).query(sub-views S, filter F).")
+    w("pub fn run_entries_query(w: &mut W, id: entity::Identifier, k: usize) -> Option<Option<String>> {")
+    w("    match k {")
+    for qi, (E, S, F) in enumerate(efam):
+        names = ["x%d" % i for i in range(len(S))]
+        pat = "result!(%s)" % ", ".join(names) if S else "_"
+        items = ", ".join(_fmt_item(nm, k) for nm, (k, c) in zip(names, S))
+        body = "vec![%s].join(\",\")" % items if S else "String::new()"
+        w("        %d => {" % qi)
+        w("            let mut res = w.query(Query::<Views!(), filter::None, Views!(), %s>::new());" % _views_ty(E))
+        w("            let mut e = res.entries.entry(id)?;")
+        w("            Some(e.query(Query::<%s, %s>::new()).map(|%s| %s))" % (_views_ty(S), _filter_ty(F), pat, body))
+        w("        }")
+    w("        _ => panic!(\"entries query {} is not in the family\", k),")
+    w("    }")
     w("}")
     w("")
     w("/// Query k again, overwriting every component reached through a mutable view with `new(old + delta)`.")
